@@ -485,6 +485,37 @@ fn grammar_entropy(rng: &mut Rng) -> (Vec<u8>, String) {
         e.push(1); // user present
         user_fields(rng, &mut e, &mut desc);
     }
+    if rng.chance(1, 4) {
+        // CredentialManagement with a credential descriptor: its id (&[u8]) and type (&str) come from
+        // the arbitrary crate's own generators, which read their lengths from the END of the data
+        // (last byte first) and their content from the cursor. Total kept below 256 bytes so that
+        // each length is one byte.
+        let mut e = vec![rng.next() as u8, rng.next() as u8, rng.next() as u8, 0xA0 + rng.below(12) as u8];
+        e.extend_from_slice(&rng.bytes(4)); // sub-command choice
+        e.push(1); // sub_command_params present
+        e.push(0); // no rp_id_hash
+        e.push(1); // credential id present
+        let n_id = rng.usize_below(40);
+        let n_ty = *rng.pick(&[0usize, 10, 31, 32, 33, 34, 40, 64, 100]);
+        e.extend_from_slice(&rng.bytes(n_id));
+        // text whose multi-byte characters fall on every offset near 32
+        let lead = rng.usize_below(n_ty + 1);
+        let mut ty = crate::schema::utf8_text(rng, lead);
+        while ty.len() < n_ty {
+            ty.extend_from_slice("é€😀".as_bytes());
+        }
+        if rng.chance(1, 6) && !ty.is_empty() {
+            let k = rng.usize_below(ty.len());
+            ty[k] = 0xff; // ill-formed in the middle
+        }
+        let n_ty = ty.len().min(120);
+        e.extend_from_slice(&ty[..n_ty]);
+        e.push(rng.below(2) as u8); // user present?
+        e.extend_from_slice(&[0u8; 24]);
+        e.push(n_ty as u8);
+        e.push(n_id as u8);
+        return (e, format!("CredentialManagement with descriptor: id {} bytes, type {} bytes (lengths in the tail)", n_id, n_ty));
+    }
     // tail: lengths of borrowed byte strings are read from the end of the data
     let tail = match rng.below(3) {
         0 => vec![0u8; 64],
